@@ -76,3 +76,46 @@ reg(Contract('dd.bdd.reorder!observed', [('bdd', 'mgr'), ('order', 'any')], mgr=
              post=reorder_post, modifies=M.ALLF, ret='none', uses=U1, assumed=True,
              note='observed contract (cross-checked on real executions; not used by proofs): what the ASSUMED contract of reorder() abbreviates'))
 M.REG_FREE_GHOST['dd.bdd.reorder!observed'] = {'A2'}
+
+
+# ---------------------------------------------------------------------------------------------------------------------
+# undeclare_vars (C14): observed contract (its body rebuilds the tables by comprehensions: outside the VC generator)
+from z3 import Exists, Int  # noqa: E402
+
+_u2 = Int('u!und')
+n2_ = M.Const('n2!und', M.Name)
+
+
+def level_in_use(S, l):
+    return Exists([_u2], And(S.dom[_u2], _u2 > 1, S.lvl[_u2] == l))
+
+
+def und_bad(c):
+    S, a = c.S0, c.a
+    return Exists([n_], And(a.vrs.has[n_], Or(Not(S.vin[n_]), level_in_use(S, S.v2l[n_]))))
+
+
+def und_post(c):
+    S0, S1, a, r = c.S0, c.S1, c.a, c.r
+    none_named = Not(a.vrs._ne)
+    removed = lambda nm: If(none_named, And(S0.vin[nm], Not(level_in_use(S0, S0.v2l[nm]))), a.vrs.has[nm])  # noqa
+    return wf(S1, U1) + [
+        ('returns-the-removed-names', ForAll([n_], r.has[n_] == removed(n_), patterns=[r.has[n_]])),
+        ('exactly-those-are-undeclared', ForAll([n_], S1.vin[n_] == And(S0.vin[n_], Not(removed(n_))), patterns=[S1.vin[n_]])),
+        ('relative-order-kept', ForAll([n_, n2_], Implies(And(S1.vin[n_], S1.vin[n2_]), (S0.v2l[n_] < S0.v2l[n2_]) == (S1.v2l[n_] < S1.v2l[n2_])),
+                                       patterns=[M.MultiPattern(S1.vin[n_], S1.vin[n2_])])),
+        ('A2-is-A-by-variable-name', ForAll([l_], Implies(S1.lin[l_], A2[l_] == A[S0.v2l[S1.l2v[l_]]]), patterns=[S1.lin[l_]])),
+        ('nodes-kept', And(S1.dom == S0.dom, S1.lo == S0.lo, S1.hi == S0.hi, S1.ref == S0.ref)),
+        ('nodes-keep-their-variable', ForAll([x_], Implies(And(S0.dom[x_], x_ > 1), And(S1.vin[S0.l2v[S0.lvl[x_]]], S1.lvl[x_] == S1.v2l[S0.l2v[S0.lvl[x_]]])),
+                                             patterns=[S0.dom[x_]])),
+        ('denotation-kept', ForAll([x_], Implies(S0.dom[x_], S1.sem2[x_] == S0.sem[x_]), patterns=[S0.dom[x_]])),
+        ('external-counts-kept', ForAll([x_], Implies(S0.dom[x_], S1.ext[x_] == S0.ext[x_]), patterns=[S0.dom[x_]])),
+        ('computed-table-empty', ForAll([M._t], Not(S1.ch[M._t]), patterns=[S1.ch[M._t]])),
+        ('switches-kept', And(S1.lastlen == S0.lastlen, S1.ctx == S0.ctx))]
+
+
+reg(Contract('dd.bdd.BDD.undeclare_vars!observed', [('self', 'mgr'), ('vrs', 'set:name')],
+             pre=lambda c: wf(c.S, U0), post=und_post, modifies=M.ALLF, ret='set:name', uses=U1,
+             raises={'ValueError': Raise(when=und_bad, must=True)}, assumed=True,
+             note='observed contract (cross-checked on real executions; not used by proofs)'))
+M.REG_FREE_GHOST['dd.bdd.BDD.undeclare_vars!observed'] = {'A2'}
